@@ -22,6 +22,15 @@ def au(v, a):
 def letters_for_cfg(cfg):
     AW = cfg["aw"]
     thin = cfg.get("thin", False)
+    if cfg.get("big"):
+        # very wide address spaces: the same arithmetic with operands beyond 2**53 (where floating point,
+        # 32/64-bit truncation or shifts by the wrong amount would show)
+        P = [None, (1 << 53) + 1, (1 << 53) + 3, (1 << 62) + 5, (1 << AW) - 2, (1 << AW) - 1, 1 << AW]
+        L = [("res", size, addr, ra) for size in (1, 3, (1 << 53) + 1) for addr in P for ra in (None, 1, 54)]
+        L += [("win", waw, "same", addr, 0) for waw in (1, 54) for addr in (None, (1 << 54) * 3, (1 << 53) + 2)]
+        L += [("align", k) for k in (0, 1, 53, 54)] + [("freeze",), ("use_window",)]
+        L += [("bad", "size_neg"), ("bad", "name_conflict"), ("bad", "big_win")]
+        return L
     L = []
     sizes = (0, 1, 2, 3, 5) if not thin else (1, 3)
     addrs = [None] + list(range(1 << AW)) + [1 << AW]
@@ -295,7 +304,12 @@ def execute_factory(cfg):
                     err = dict(msg=f"after the refused call {history[-1]}, a legal retry with its name/object is refused: {type(e).__name__}: {str(e)[:100]}",
                                signature=dict(kind="oracle", what="refusal_left_traces"))
         open_ = retried       # a successful retry has just shown that the map still accepts a resource
-        for a in (() if retried else range(0, 1 << AW, 1 << AL)):
+        if AW <= 8:
+            probe_addrs = range(0, 1 << AW, 1 << AL)
+        else:
+            top = 1 << AW
+            probe_addrs = sorted({0, 1 << AL, top - (1 << AL), top // 2, au(cursor, AL), au(cursor, AL) + (1 << AL)} - {top})
+        for a in (() if retried else probe_addrs):
             try:
                 mm.add_resource(make_res(), name=(f"probe{a}",), size=1, addr=a)
                 open_ = True
@@ -343,11 +357,12 @@ def configs(tier):
     if tier == "quick":
         return [dict(aw=2, al=0, depth=5), dict(aw=2, al=1, depth=6), dict(aw=3, al=0, depth=3), dict(aw=3, al=1, depth=3),
                 dict(aw=3, al=2, depth=4), dict(aw=3, al=0, depth=3, thin=True), dict(aw=4, al=1, depth=3, thin=True),
-                dict(aw=4, al=0, depth=2, thin=True)]
+                dict(aw=4, al=0, depth=2, thin=True), dict(aw=64, al=0, depth=3, big=True), dict(aw=60, al=1, depth=2, big=True)]
     return [dict(aw=2, al=0, depth=8), dict(aw=2, al=1, depth=8), dict(aw=3, al=0, depth=4), dict(aw=3, al=1, depth=4),
             dict(aw=3, al=2, depth=5), dict(aw=3, al=0, depth=5, thin=True), dict(aw=4, al=0, depth=3, thin=True),
             dict(aw=4, al=1, depth=4, thin=True), dict(aw=4, al=2, depth=4, thin=True), dict(aw=3, al=1, depth=5, thin=True),
-            dict(aw=4, al=0, depth=2)]
+            dict(aw=4, al=0, depth=2), dict(aw=64, al=0, depth=4, big=True), dict(aw=60, al=1, depth=3, big=True),
+            dict(aw=57, al=3, depth=3, big=True)]
 
 
 def replay(data):
